@@ -163,6 +163,9 @@ def schedule(ctx, k=5, limits=None, first=()):
         if not closed:
             if len(tasks) < 4:
                 enabled += [("connect", "A"), ("connect", "B")]
+                if any(c is not None for c in held):
+                    # started in the same loop iteration as a following release
+                    enabled += [("connect_notick", "A")]
             for j, p in enumerate(pending_creates):
                 if not p[0].done():
                     enabled += [("create_ok", j), ("create_fail", j)]
@@ -180,9 +183,10 @@ def schedule(ctx, k=5, limits=None, first=()):
             break
         trace.append(list(op))
         tick = True
-        if op[0] == "connect":
+        if op[0] in ("connect", "connect_notick"):
             t = asyncio.Task(conn.connect(_Req(keys[op[1]]), [], tmo), loop=loop)
             tasks.append([t, op[1], False])
+            tick = op[0] == "connect"
         elif op[0] == "create_ok":
             pending_creates[op[1]][0].set_result(True)
         elif op[0] == "create_fail":
